@@ -859,6 +859,10 @@ Hdupdd(int32  file_id, /* IN: File ID the tag/refs are in */
     if (BADFREC(file_rec))
         HGOTO_ERROR(DFE_ARGS, FAIL);
 
+    /* the directory of a file opened only for reading cannot be changed */
+    if (!(file_rec->access & DFACC_WRITE))
+        HGOTO_ERROR(DFE_DENIED, FAIL);
+
     /* Attach to the old DD in the file */
     if ((old_dd = HTPselect(file_rec, old_tag, old_ref)) == FAIL)
         HGOTO_ERROR(DFE_NOMATCH, FAIL);
@@ -1236,6 +1240,10 @@ Hdeldd(int32 file_id, uint16 tag, uint16 ref)
     file_rec = HAatom_object(file_id);
     if (BADFREC(file_rec) || tag == DFTAG_WILDCARD || ref == DFREF_WILDCARD)
         HGOTO_ERROR(DFE_ARGS, FAIL);
+
+    /* the directory of a file opened only for reading cannot be changed */
+    if (!(file_rec->access & DFACC_WRITE))
+        HGOTO_ERROR(DFE_DENIED, FAIL);
 
     /* look for the dd to delete */
     if ((ddid = HTPselect(file_rec, tag, ref)) == FAIL)
